@@ -327,6 +327,15 @@ fn collapse_halfcell_to_base<T: CoordsFloat>(
         map.remove_free_dart_transac(t, b2d_ne)?;
         map.sew::<1>(t, d_pe, b1b2d_ne)?;
         map.sew::<1>(t, b0b2d_ne, d_pe)?;
+    } else {
+        // the next edge is on the boundary: no cell takes the previous edge over, the whole
+        // cell disappears and the cell across the previous edge, if any, becomes a boundary one
+        if map.beta_transac::<2>(t, d_pe)? != NULL_DART_ID {
+            map.unsew::<2>(t, d_pe)?;
+        }
+        map.remove_free_dart_transac(t, d_e)?;
+        map.remove_free_dart_transac(t, d_ne)?;
+        map.remove_free_dart_transac(t, d_pe)?;
     }
 
     Ok(())
